@@ -1280,7 +1280,7 @@ const TCP_REPLY_WAIT: Duration = Duration::from_secs(15);
 
 pub fn tcp_exchange(addr: SocketAddr, segments: &[Vec<u8>], gap_ms: u64, mode: CloseMode) -> TcpObs {
     let mut obs = TcpObs::default();
-    let mut s = match TcpStream::connect_timeout(&addr, Duration::from_secs(3)) {
+    let mut s = match TcpStream::connect_timeout(&addr, Duration::from_secs(10)) {
         Ok(s) => s,
         Err(_) => {
             obs.connect_failed = true;
